@@ -674,7 +674,31 @@ def _chunker_by_shape(repo, rep, tb, env):
 
 
 
+def _check_registry(repo, rep):
+    """A message is parsed with the schema registered for its type id: the id -> schema name pairs of the confirmed tree
+    (nvstatic/reference/tables.json; the repository holds no second source for them) are unchanged; new ids may be added."""
+    import json
+    import os
+    ref_path = os.path.join(os.path.dirname(os.path.dirname(os.path.abspath(__file__))), "reference", "tables.json")
+    try:
+        with open(ref_path, encoding="utf-8") as fh:
+            ref = json.load(fh)["TSPRegistryMapping"]
+    except (OSError, KeyError, ValueError) as e:
+        raise AnalysisError(f"reference table of message types not readable: {e}") from e
+    node = repo.module_assign("src/numbers_parser/generated/mapping.py", "TSPRegistryMapping")
+    try:
+        cur = {str(k): v for k, v in ast.literal_eval(node).items()}
+    except Exception as e:  # noqa: BLE001
+        raise AnalysisError(f"generated/mapping.py: TSPRegistryMapping is not a literal table ({e})") from e
+    changed = [(i, ref[i], cur.get(i)) for i in sorted(ref, key=lambda x: int(x)) if cur.get(i) != ref[i]]
+    detail = "; ".join(f"type id {i} is parsed as {c} (confirmed: {r})" for i, r, c in changed[:4])
+    rep.ob("C05.R4", node, f"message schemas: the {len(ref)} confirmed type id -> schema pairs are unchanged", not changed,
+           detail + (": fields the other schema does not know are re-emitted in another order, the message bytes change on re-encoding" if changed else ""),
+           key="C05.R4@schema:registry")
+
+
 def _rest(repo, rep, env):
+    _check_registry(repo, rep)
     # ---------------- R3 header lengths refreshed before the header is serialised
     sb = repo.func("iwafile.py", "IWAArchiveSegment.to_buffer")
     g = cfgmod.build(sb)
